@@ -165,7 +165,7 @@ class Collector:
                 t_end = time.monotonic() + self.timeout
                 while True:
                     try:
-                        item = ch.receive(0.002)
+                        item = ch.receive(0.02)
                     except ch.TimeoutError:
                         if time.monotonic() > t_end:
                             raise
